@@ -312,6 +312,7 @@ func init() {
 
 func runC03(c *eng.Ctx) {
 	cr := &caseRunner{c: c, prop: "C03"}
+	defer func() { RunOptionalRetryC03(c, cr.next) }()
 	defer func() {
 		// transient registrations whose constructors share their code, resolved so that one
 		// resolution is still building its dependencies while the other runs completely: every
